@@ -16,8 +16,19 @@ def c01_check(nodes: Dict[str, Dict[str, Any]], events: List[Dict[str, Any]]) ->
     cnt = {"launch_checks": 0, "pred_checks": 0, "subject_exception_used": 0, "graph_pred_mismatch": 0,
            "clause_failed_checked": 0, "clause_shutdown_checked": 0, "pred_final_at_launch": 0}
     submitted = set()      # components whose ComponentState.run() has been recorded
+    recorded_final: Dict[str, int] = {}     # finishedCheck.exit seq: the controller has recorded the final state
+    pass_start: Dict[str, int] = {}         # thread -> seq of the scheduler pass it is currently running
+    decided_in_pass: Dict[str, set] = {}    # thread -> components the scheduler itself finished in this pass
+    cnt["subject_final_unrecorded_at_submission"] = 0
     for e in events:
         k = e["kind"]
+        if k == "finishedCheck.exit":
+            recorded_final.setdefault(e["comp"], e["seq"])
+        elif k == "schedule.enter":
+            pass_start[e["thread"]] = e["seq"]
+            decided_in_pass[e["thread"]] = set()
+        elif k == "fakeFinish":
+            decided_in_pass.setdefault(e["thread"], set()).add(e["comp"])
         if k not in ("launch", "cs.run"):
             continue
         x = e["comp"]
@@ -51,6 +62,17 @@ def c01_check(nodes: Dict[str, Dict[str, Any]], events: List[Dict[str, Any]]) ->
             # running may legitimately execute again while the asynchronous stop is in flight)
             if is_repeat and k != "cs.run":
                 continue
+            if is_repeat and pn.get("stage") == nd["stage"]:
+                # P is a SUBJECT of X: it may legitimately still be running when X is submitted, hence it may also
+                # reach failed/shut-down at any instant between the scheduler's decision and X.run().  The clause
+                # applies only if the scheduler knew: the controller had recorded P's final state before the
+                # pass that submitted X began, or the scheduler itself finished P earlier in this very pass.
+                th = e.get("thread")
+                known = (p in recorded_final and recorded_final[p] < pass_start.get(th, 0)) or \
+                        (p in decided_in_pass.get(th, ()))
+                if not known:
+                    cnt["subject_final_unrecorded_at_submission"] += 1
+                    continue
             cnt["clause_failed_checked"] += 1
             if s == FAILED:
                 viol.append({"clause": "launched-with-failed-producer", "event": _slim(e), "consumer": x,
